@@ -15,7 +15,6 @@ import (
 	"github.com/attestantio/vouch/internal/vstub"
 	nullmetrics "github.com/attestantio/vouch/services/metrics/null"
 	"github.com/attestantio/vouch/services/validatorsmanager"
-	"github.com/rs/zerolog"
 	e2wallet "github.com/wealdtech/go-eth2-wallet"
 	e2wtypes "github.com/wealdtech/go-eth2-wallet-types/v2"
 )
@@ -67,7 +66,7 @@ func (c13Chain) GenesisDomain(_ context.Context, _ phase0.DomainType) (phase0.Do
 // engine cannot execute; VerifC13_Specifiers, which needs specifiers, therefore
 // keeps building the service from its fields.
 func c13New(vm validatorsmanager.Service, ct *vstub.ChainTime, label string) *Service {
-	s, err := New(context.Background(), WithLogLevel(zerolog.Disabled), WithMonitor(&nullmetrics.Service{}),
+	s, err := New(context.Background(), WithLogLevel(vnd.LogLevel()), WithMonitor(&nullmetrics.Service{}),
 		WithProcessConcurrency(2), WithLocations([]string{"/nonexistent/wallets"}), WithAccountPaths([]string{}), WithPassphrases([][]byte{[]byte("secret")}),
 		WithValidatorsManager(vm), WithSpecProvider(c13Chain{}), WithFarFutureEpochProvider(c13Chain{}),
 		WithDomainProvider(c13Chain{}), WithCurrentEpochProvider(ct))
@@ -195,7 +194,7 @@ func VerifC17_RefreshVsLookup() {
 		w.Accs = append(w.Accs, mk(i))
 	}
 	// built as main builds it: New loads the accounts a first time
-	s, err := New(context.Background(), WithLogLevel(zerolog.Disabled), WithMonitor(&nullmetrics.Service{}),
+	s, err := New(context.Background(), WithLogLevel(vnd.LogLevel()), WithMonitor(&nullmetrics.Service{}),
 		WithProcessConcurrency(2), WithLocations([]string{"/nonexistent/wallets"}), WithAccountPaths([]string{"W1"}), WithPassphrases([][]byte{[]byte("secret")}),
 		WithValidatorsManager(vm), WithSpecProvider(c13Chain{}), WithFarFutureEpochProvider(c13Chain{}),
 		WithDomainProvider(c13Chain{}), WithCurrentEpochProvider(ct))
@@ -339,7 +338,7 @@ func VerifC13_RefreshFromWallets() {
 	other.Key.B = phase0.BLSPubKey{99}
 	w3 := &vstub.Wallet{Nm: "Wallet 3", Accs: []e2wtypes.Account{other}}
 	c13Wallets = map[string]e2wtypes.Wallet{"Wallet 1": w1, "Wallet 2": &vstub.Wallet{Nm: "Wallet 2"}, "Wallet 3": w3}
-	s, err := New(context.Background(), WithLogLevel(zerolog.Disabled), WithMonitor(&nullmetrics.Service{}),
+	s, err := New(context.Background(), WithLogLevel(vnd.LogLevel()), WithMonitor(&nullmetrics.Service{}),
 		WithProcessConcurrency(2), WithLocations([]string{"/nonexistent/wallets"}), WithAccountPaths(specs), WithPassphrases(pass),
 		WithValidatorsManager(vm), WithSpecProvider(c13Chain{}), WithFarFutureEpochProvider(c13Chain{}),
 		WithDomainProvider(c13Chain{}), WithCurrentEpochProvider(vstub.NewChainTime(0)))
